@@ -407,6 +407,148 @@ static std::string schedRun(const std::vector<std::string>& t)
   return out;
 }
 
+// ---- exhaustive exploration of every schedule of a small program (DFS over DetSched's recorded alternatives)
+struct OneRun { std::string status; std::size_t maxn = 0, finaln = 0; std::vector<std::vector<std::string>> rets; std::vector<char> finished;
+                std::vector<std::uint32_t> choices; std::vector<std::vector<std::uint32_t>> alts; };
+static OneRun runOnce(std::size_t cap, const std::vector<std::vector<Call>>& progs, const std::vector<std::uint32_t>& prefix)
+{
+  auto* sh = new Shared();
+  sh->progs = progs;
+  std::size_t nthr = progs.size();
+  sh->rets.resize(nthr);
+  sh->finished.assign(nthr, 0);
+  sh->q = new BQ(cap);
+  ds::Options opt;
+  opt.maxSteps = 5000;
+  ds::options(opt);
+  ds::init(prefix);
+  ds::set_step_hook(sampleHook, sh);
+  bool ok = ds::run([sh, nthr] {
+    std::vector<std::thread> ts;
+    for (std::size_t k = 1; k < nthr; ++k)
+      ts.emplace_back([sh, k] {
+        for (const Call& c : sh->progs[k]) sh->rets[k].push_back(doCall(sh->q, c, (c.v & 1) != 0));
+        sh->finished[k] = 1;
+      });
+    for (auto& th : ts) th.join();
+  });
+  ds::set_step_hook(nullptr, nullptr);
+  OneRun r;
+  r.status = ok ? "ok" : ds::deadlocked() ? "deadlock" : ds::stepLimit() ? "steplimit" : "diverged";
+  for (const Sample& x : sh->samples) if (x.n > r.maxn) r.maxn = x.n;
+  r.finaln = sh->q->_queue.size();
+  if (r.finaln > r.maxn) r.maxn = r.finaln;
+  r.rets = sh->rets;
+  r.finished = sh->finished;
+  r.choices = ds::choices();
+  r.alts = ds::alternatives();
+  if (ok) { delete sh->q; delete sh; }
+  return r;
+}
+// implementation-only property monitor of one run ("" = fine)
+static std::string judge(std::size_t cap, const std::vector<std::vector<Call>>& progs, const OneRun& r)
+{
+  if (r.status != "ok") return r.status;
+  if (r.maxn > cap) return "capacity " + std::to_string(r.maxn) + ">" + std::to_string(cap);
+  std::vector<std::pair<u64, std::size_t>> put;   // value, producer (in per-producer program order)
+  std::vector<std::pair<u64, std::size_t>> taken; // value, consumer
+  for (std::size_t k = 1; k < progs.size(); ++k)
+  {
+    if (!r.finished[k] || r.rets[k].size() != progs[k].size()) return "unfinished thread " + std::to_string(k);
+    for (std::size_t i = 0; i < progs[k].size(); ++i)
+    {
+      const Call& c = progs[k][i];
+      const std::string& x = r.rets[k][i];
+      if ((c.kind == 'q' || c.kind == 'f' || c.kind == 't') && x == "1") put.push_back({c.v, k});
+      if ((c.kind == 'd' || c.kind == 'e' || c.kind == 'y') && x.size() > 2 && x[0] == '1') taken.push_back({std::stoull(x.substr(2)), k});
+    }
+  }
+  for (std::size_t i = 0; i < taken.size(); ++i)
+  {
+    bool found = false;
+    for (auto& p : put) if (p.first == taken[i].first) found = true;
+    if (!found) return "took an item nobody put: " + std::to_string(taken[i].first);
+    for (std::size_t j = 0; j < i; ++j) if (taken[j].first == taken[i].first) return "item taken twice: " + std::to_string(taken[i].first);
+  }
+  if (put.size() - taken.size() != r.finaln) return "conservation: put " + std::to_string(put.size()) + " taken " + std::to_string(taken.size()) + " left " + std::to_string(r.finaln);
+  // per-producer order at each consumer
+  for (std::size_t i = 0; i < taken.size(); ++i)
+    for (std::size_t j = i + 1; j < taken.size(); ++j)
+    {
+      if (taken[i].second != taken[j].second) continue;
+      std::size_t pi = 0, pj = 0, oi = 0, oj = 0;
+      for (std::size_t k = 0; k < put.size(); ++k) { if (put[k].first == taken[i].first) { pi = put[k].second; oi = k; } if (put[k].first == taken[j].first) { pj = put[k].second; oj = k; } }
+      if (pi == pj && oi > oj) return "producer order broken: " + std::to_string(taken[i].first) + " before " + std::to_string(taken[j].first);
+    }
+  return "";
+}
+// bq explore <max> <progs> <maxruns>
+static std::string exploreRun(const std::vector<std::string>& t)
+{
+  unsigned long long mx = 0, maxruns = 0;
+  if (t.size() != 5 || !vh::parseNat(t[2], mx) || mx == 0 || !vh::parseNat(t[4], maxruns)) return "bad-op";
+  std::vector<std::vector<Call>> progs;
+  {
+    std::size_t i = 0;
+    const std::string& s = t[3];
+    while (i <= s.size())
+    {
+      std::size_t j = s.find('/', i);
+      if (j == std::string::npos) j = s.size();
+      std::vector<Call> p;
+      if (!parseProg(s.substr(i, j - i), p)) return "bad-op";
+      progs.push_back(p);
+      i = j + 1;
+    }
+  }
+  if (progs.empty() || !progs[0].empty() || progs.size() > 6) return "bad-op";
+  std::vector<std::vector<std::uint32_t>> stack;
+  stack.push_back(std::vector<std::uint32_t>{0});
+  unsigned long long explored = 0, deadlocks = 0, bad = 0;
+  std::size_t maxn = 0, maxlen = 0;
+  std::string first;
+  std::vector<std::string> outcomes;
+  while (!stack.empty() && explored < maxruns)
+  {
+    std::vector<std::uint32_t> prefix = stack.back();
+    stack.pop_back();
+    OneRun r = runOnce(static_cast<std::size_t>(mx), progs, prefix);
+    ++explored;
+    if (r.maxn > maxn) maxn = r.maxn;
+    if (r.choices.size() > maxlen) maxlen = r.choices.size();
+    std::string why = judge(static_cast<std::size_t>(mx), progs, r);
+    if (r.status == "deadlock") ++deadlocks;
+    if (!why.empty())
+    {
+      ++bad;
+      if (first.empty())
+      {
+        first = why + "@";
+        for (std::size_t i = 0; i < r.choices.size(); ++i) { if (i) first += ','; first += std::to_string(r.choices[i]); }
+      }
+    }
+    std::string oc;
+    for (std::size_t k = 1; k < progs.size(); ++k) { for (auto& x : r.rets[k]) { oc += x; oc += ','; } oc += '/'; }
+    if (std::find(outcomes.begin(), outcomes.end(), oc) == outcomes.end()) outcomes.push_back(oc);
+    // siblings: every other alternative of every decision made after the prefix
+    for (std::size_t i = r.choices.size(); i-- > prefix.size();)
+    {
+      if (i >= r.alts.size()) continue;
+      for (std::uint32_t a : r.alts[i])
+      {
+        if (a == r.choices[i]) continue;
+        std::vector<std::uint32_t> p(r.choices.begin(), r.choices.begin() + static_cast<std::ptrdiff_t>(i));
+        p.push_back(a);
+        stack.push_back(p);
+      }
+    }
+  }
+  std::replace(first.begin(), first.end(), ' ', '_');
+  return "explored=" + std::to_string(explored) + " complete=" + (stack.empty() ? "1" : "0") + " deadlocks=" + std::to_string(deadlocks) +
+         " bad=" + std::to_string(bad) + " maxn=" + std::to_string(maxn) + " outcomes=" + std::to_string(outcomes.size()) +
+         " maxlen=" + std::to_string(maxlen) + " first=" + (first.empty() ? "-" : first);
+}
+
 static std::string bqStep(const std::vector<std::string>& t)
 {
   unsigned long long n = 0;
@@ -420,6 +562,7 @@ static std::string bqStep(const std::vector<std::string>& t)
     return "ok";
   }
   if (op == "sched") return schedRun(t);
+  if (op == "explore") return exploreRun(t);
   if (op == "replay") return "bad-op";   // model-only op
   if ((op == "q" || op == "qm") && t.size() == 3 && vh::parseNat(t[2], n)) return seqCall(Call{'q', n}, op == "qm", 0);
   if ((op == "tq" || op == "tqm") && t.size() == 3 && vh::parseNat(t[2], n)) return seqCall(Call{'t', n}, op == "tqm", 0);
